@@ -172,5 +172,24 @@ func skipOne(in []byte, fields []refwire.Field, fast bool) (sv *skipViolation) {
 	if !bytes.Equal(in, backup) {
 		return &skipViolation{failure: "input-modified", wtName: "any", num: f.Num, idx: len(fields), what: "input was modified"}
 	}
+	// indexed access with the same decoder (which has read other keys before): position the cursor behind a
+	// field's key with Seek and skip it, in an order unrelated to the order of the fields
+	for k := 0; k < len(fields) && k < 12; k++ {
+		i := (k*7 + len(in)) % len(fields)
+		f := fields[i]
+		cur = i
+		if _, err := d.Seek(int64(f.Start+f.KeyLen), 0); err != nil {
+			return &skipViolation{failure: "seek-error", wtName: "wt" + itoa(f.WT), num: f.Num, idx: i, what: "Seek to a valid offset failed: " + err.Error()}
+		}
+		raw, err := d.Skip(f.Num, csproto.WireType(f.WT))
+		switch {
+		case err != nil:
+			return &skipViolation{failure: "indexed-skip-error", wtName: "wt" + itoa(f.WT), num: f.Num, idx: i, what: fmt.Sprintf("Skip after Seek to the payload of a well-formed field failed: %v", err)}
+		case !bytes.Equal(raw, in[f.Start:f.End]):
+			return &skipViolation{failure: "indexed-skip-bytes", wtName: "wt" + itoa(f.WT), num: f.Num, idx: i, what: fmt.Sprintf("Skip after Seek returned %x, the field's encoding is %x", clip(raw), clip(in[f.Start:f.End]))}
+		case d.Offset() != f.End:
+			return &skipViolation{failure: "indexed-skip-cursor", wtName: "wt" + itoa(f.WT), num: f.Num, idx: i, what: fmt.Sprintf("cursor %d after Skip, next field starts at %d", d.Offset(), f.End)}
+		}
+	}
 	return nil
 }
